@@ -150,6 +150,7 @@ func (g *TransferGen) nftAfterRecv(c *tibctesting.TestChain, p packettypes.Packe
 	if isErr {
 		if len(changed) != 0 {
 			g.w.hit("C19", "error-ack-but-token-ownership-changed "+fkey(p))
+			g.w.hit("C06", "error-ack-but-a-token-of-the-transfer-exists-on-the-receiving-side "+fkey(p))
 		}
 		if fl != nil {
 			fl.errAck = true
@@ -372,6 +373,7 @@ func (g *TransferGen) mtAfterRecv(c *tibctesting.TestChain, p packettypes.Packet
 	if isErr {
 		if !same {
 			g.w.hit("C19", "error-ack-but-balances-or-supply-changed "+fkey(p))
+			g.w.hit("C06", "error-ack-but-units-of-the-transfer-exist-on-the-receiving-side "+fkey(p))
 			g.w.hit("C05", "error-ack-but-balances-or-supply-changed "+fkey(p))
 		}
 		if fl != nil {
